@@ -1,5 +1,7 @@
 use crate::{query_imports::*, state::ROYALTY_REGISTRY};
 
+const WEEK_IN_SECS: u64 = 604800;
+
 //~~~~~~~~~~~~~~~~~~~~~~~~~~~~~~~~~~~~~~~~~~~
 // Queries
 //~~~~~~~~~~~~~~~~~~~~~~~~~~~~~~~~~~~~~~~~~~~
@@ -8,9 +10,10 @@ use crate::{query_imports::*, state::ROYALTY_REGISTRY};
 pub fn get_fee_denom(deps: Deps) -> StdResult<FeeDenomResponse> {
     let fee_denom: FeeDenom = FEE_DENOM.load(deps.storage)?;
 
+    // FeeCycle is refused until a week after the last cycle (see execute_cycle_fee)
     let (name, next_change) = match fee_denom {
-        FeeDenom::JUNO(x) => ("JUNO".to_string(), x),
-        FeeDenom::USDC(y) => ("USDC".to_string(), y),
+        FeeDenom::JUNO(x) => ("JUNO".to_string(), x.saturating_add(WEEK_IN_SECS)),
+        FeeDenom::USDC(y) => ("USDC".to_string(), y.saturating_add(WEEK_IN_SECS)),
     };
 
     Ok(FeeDenomResponse {
@@ -26,7 +29,7 @@ pub fn get_fee_denom(deps: Deps) -> StdResult<FeeDenomResponse> {
 pub fn get_buckets(deps: Deps, bucket_owner: &str, page_num: u8) -> StdResult<MultiBucketResponse> {
     let valid_owner = deps.api.addr_validate(bucket_owner)?;
 
-    let to_skip_usize = usize::from(page_num * 20 - 20);
+    let to_skip_usize = usize::from(page_num).saturating_mul(20).saturating_sub(20);
 
     let user_buckets: Vec<_> = BUCKETS
         .prefix(valid_owner)
@@ -52,7 +55,7 @@ pub fn get_listings_by_owner(
 ) -> StdResult<MultiListingResponse> {
     let valid_owner = deps.api.addr_validate(owner)?;
 
-    let to_skip_usize = usize::from(page_num * 20 - 20);
+    let to_skip_usize = usize::from(page_num).saturating_mul(20).saturating_sub(20);
 
     let listing_data: Vec<_> = listingz()
         .prefix(&valid_owner)
@@ -76,7 +79,7 @@ pub fn get_listings_by_owner(
 pub fn get_whitelisted(deps: Deps, env: Env, owner: String) -> StdResult<MultiListingResponse> {
     let valid_owner = deps.api.addr_validate(owner.as_str())?;
 
-    let current_time = env.block.time.seconds();
+    let current_time = env.block.time;
 
     let search_whitelists: Vec<_> = listingz()
         .idx
@@ -88,7 +91,7 @@ pub fn get_whitelisted(deps: Deps, env: Env, owner: String) -> StdResult<MultiLi
         .filter_map(|entry| {
             let x = entry.1.clone();
             // Disregard entries that have no expiration, are expired, or are already closed
-            if x.expiration_time.filter(|&exp| exp.seconds() >= current_time).is_none()
+            if x.expiration_time.filter(|&exp| exp >= current_time).is_none()
                 || x.status == Status::Closed
             {
                 None
@@ -112,10 +115,10 @@ pub fn get_listings_for_market(
     env: Env,
     page_num: u8,
 ) -> StdResult<MultiListingResponse> {
-    let current_time = env.block.time.seconds();
-    let two_weeks_ago_in_seconds = current_time - 1_209_600;
+    let current_time = env.block.time;
+    let two_weeks_ago_in_seconds = current_time.seconds().saturating_sub(1_209_600);
 
-    let to_skip_usize = usize::from(page_num * 20 - 20);
+    let to_skip_usize = usize::from(page_num).saturating_mul(20).saturating_sub(20);
 
     let listings_in_range: Vec<_> = listingz()
         .idx
@@ -133,7 +136,7 @@ pub fn get_listings_for_market(
         .filter_map(|entry| {
             let x = entry.1.clone();
             // Disregard entries that have no expiration, are expired, or are already Closed
-            if x.expiration_time.filter(|&exp| exp.seconds() >= current_time).is_none()
+            if x.expiration_time.filter(|&exp| exp >= current_time).is_none()
                 || x.status == Status::Closed
             {
                 None
